@@ -217,5 +217,5 @@ def run_program(ctx, rng):
 
 
 def run(ctx):
-    for _, rng in ctx.cases("programs", ctx.n(1800, 40000)):
+    for _, rng in ctx.cases("programs", ctx.budget(34000, 700000)):
         ctx.run_case(run_program, ctx, rng)
